@@ -17,6 +17,7 @@
 #include "libdialect/routing.h"
 #include "libdialect/planarise.h"
 #include <sstream>
+#include <array>
 
 using namespace dialect;
 
@@ -90,7 +91,20 @@ void GraphSession::opHola(const Json &op) {
     for (size_t i = 0; i < ns.size(); i++) for (size_t j = i + 1; j < ns.size(); j++) {
         auto a = ns[i]->getBoundingBox(), b = ns[j]->getBoundingBox();
         double ox = std::min(a.X, b.X) - std::max(a.x, b.x), oy = std::min(a.Y, b.Y) - std::max(a.y, b.y);
-        if (ox > 1e-3 && oy > 1e-3) { violate("C14", "no-overlap", "nodes-overlap", fmt("nodes %u,%u overlap %g x %g", ns[i]->getExternalId(), ns[j]->getExternalId(), ox, oy)); return; }
+        if (ox > 1e-3 && oy > 1e-3) {
+            // classes: for an input that is one tree the growth direction is known, so nodes of one rank (same coordinate
+            // along the growth axis: the transverse placement failed) are told from nodes of different ranks (the rank
+            // separation, a multiple of the ideal edge length, is smaller than the nodes are long)
+            std::string cls;
+            if (edges.size() + 1 == nodes.size()) {
+                CardinalDir gd = op.has("defaultTreeGrowthDir") ? (CardinalDir)(op.i("defaultTreeGrowthDir", 1) & 3) : CardinalDir::SOUTH;
+                bool vertical = gd == CardinalDir::SOUTH || gd == CardinalDir::NORTH;
+                auto ca = ns[i]->getCentre(), cb = ns[j]->getCentre();
+                double dg = vertical ? std::fabs(ca.y - cb.y) : std::fabs(ca.x - cb.x);
+                cls = dg > 1e-6 ? ":tree-nodes-of-different-ranks" : ":tree-nodes-of-one-rank";
+            }
+            violate("C14", "no-overlap", "nodes-overlap" + cls, fmt("nodes %u,%u overlap %g x %g", ns[i]->getExternalId(), ns[j]->getExternalId(), ox, oy)); return;
+        }
     }
     for (auto &p : g->getEdgeLookup()) {
         Edge_SP e = p.second;
@@ -98,7 +112,10 @@ void GraphSession::opHola(const Json &op) {
         unsigned ea = e->getSourceEnd()->getExternalId(), eb = e->getTargetEnd()->getExternalId();
         if (rt.size() < 2) { violate("C14", "routes", "edge-has-no-route", fmt("edge %u-%u: %zu points", ea, eb, rt.size())); return; }
         for (size_t k = 1; k < rt.size(); k++) {
-            if (std::fabs(rt[k].x - rt[k - 1].x) > 1e-6 && std::fabs(rt[k].y - rt[k - 1].y) > 1e-6) { violate("C14", "routes", "diagonal-route-segment", fmt("edge %u-%u", ea, eb)); return; }
+            if (std::fabs(rt[k].x - rt[k - 1].x) > 1e-6 && std::fabs(rt[k].y - rt[k - 1].y) > 1e-6) { 
+                auto ba = e->getSourceEnd()->getBoundingBox(), bb = e->getTargetEnd()->getBoundingBox();
+                std::string rs; for (auto &q : rt) rs += fmt("(%g,%g)", q.x, q.y);
+                violate("C14", "routes", "diagonal-route-segment", fmt("edge %u-%u route %s; node %u [%g,%g]x[%g,%g] node %u [%g,%g]x[%g,%g]", ea, eb, rs.c_str(), ea, ba.x, ba.X, ba.y, ba.Y, eb, bb.x, bb.X, bb.y, bb.Y)); return; }
             double mx0 = std::min(rt[k].x, rt[k - 1].x), mx1 = std::max(rt[k].x, rt[k - 1].x), my0 = std::min(rt[k].y, rt[k - 1].y), my1 = std::max(rt[k].y, rt[k - 1].y);
             for (auto &u : ns) {
                 if (u->id() == e->getSourceEnd()->id() || u->id() == e->getTargetEnd()->id()) continue;
@@ -148,7 +165,7 @@ void GraphSession::opHola(const Json &op) {
     probe("dialect.c14-evaluated");
 }
 
-void GraphSession::opPeel(const Json &) {
+void GraphSession::opPeel(const Json &op) {
     Graph_SP g; Trees trees;
     std::string ex = guarded([&] { { std::string src = tglf(); g = buildGraphFromTglf(src); } trees = peel(*g); });
     if (!ex.empty()) { probe(ex.c_str()); violate("C15", "assert", ex, "during peel"); violate("C19", "threw", "peel-threw:" + ex, ""); return; }
@@ -188,10 +205,30 @@ void GraphSession::opPeel(const Json &) {
     if (g->getNumNodes() > 1) for (auto &p : g->getNodeLookup()) if (p.second->getDegree() == 1) { violate("C19", "core", "core-has-a-degree-one-node", ""); return; }
     // symmetric tree layout: no two tree nodes on top of each other
     for (auto &tr : trees) {
-        std::string e2 = guarded([&] { tr->symmetricLayout(CardinalDir::SOUTH, 10, 40); });
+        static const CardinalDir dirs[4] = {CardinalDir::SOUTH, CardinalDir::EAST, CardinalDir::NORTH, CardinalDir::WEST};
+        CardinalDir gd = dirs[op.i("growth", 0) & 3];
+        bool convex = op.i("convex", 0) != 0;
+        // rankSep is a centre-to-centre distance chosen by the caller: keep ranks apart along the growth axis, so that
+        // any overlap left is the transverse placement's doing (which is what the layout is responsible for)
+        double rankSep = 40;
+        for (auto &p : tr->underlyingGraph()->getNodeLookup()) { auto d = p.second->getDimensions(); rankSep = std::max(rankSep, ((op.i("growth", 0) & 1) ? d.first : d.second) + 10); }
+        std::string e2 = guarded([&] { tr->symmetricLayout(gd, 10, rankSep, convex); });
         if (!e2.empty()) { violate("C19", "threw", "symmetricLayout-threw:" + e2, ""); return; }
         std::set<std::pair<long, long>> pos;
-        for (auto &p : tr->underlyingGraph()->getNodeLookup()) { auto c = p.second->getCentre(); if (!pos.insert({lround(c.x * 1000), lround(c.y * 1000)}).second) { violate("C19", "symmetric-layout", "two-tree-nodes-coincide", ""); return; } }
+        std::vector<std::array<double, 5>> boxes;
+        for (auto &p : tr->underlyingGraph()->getNodeLookup()) {
+            auto c = p.second->getCentre();
+            if (!pos.insert({lround(c.x * 1000), lround(c.y * 1000)}).second) { violate("C19", "symmetric-layout", "two-tree-nodes-coincide", ""); return; }
+            auto d = p.second->getDimensions();
+            boxes.push_back({c.x - d.first / 2, c.x + d.first / 2, c.y - d.second / 2, c.y + d.second / 2, (double)p.first});
+        }
+        // "on top of each other" also read as: the boxes of two tree nodes share interior area
+        for (size_t a = 0; a < boxes.size(); a++) for (size_t b = a + 1; b < boxes.size(); b++) {
+            double ox = std::min(boxes[a][1], boxes[b][1]) - std::max(boxes[a][0], boxes[b][0]);
+            double oy = std::min(boxes[a][3], boxes[b][3]) - std::max(boxes[a][2], boxes[b][2]);
+            if (ox > 1e-6 && oy > 1e-6) { violate("C19", "symmetric-layout", "two-tree-nodes-overlap", fmt("nodes %d and %d overlap by %g x %g (growth %ld)", (int)boxes[a][4], (int)boxes[b][4], ox, oy, (long)(op.i("growth", 0) & 3))); return; }
+        }
+        probe("dialect.c19-symmetric-layout-evaluated");
     }
     probe("dialect.c19-peel-evaluated");
 }
@@ -327,14 +364,22 @@ Json genGraphSession(Rng &r, const std::string &tier, const std::string &what) {
         for (int k = 0; k < extra; k++) { int a = (int)r.below(n), b = (int)r.below(n); if (a == b) continue; if (a > b) std::swap(a, b); es.insert({a, b}); }
     } else if (what == "hola") {
         n = tier == "thorough" && r.chance(0.3) ? r.range(15, 40) : r.range(3, 14);
-        for (int i = 0; i < n; i++) { Json nj = Json::arr(); nj.push((double)r.below(400)); nj.push((double)r.below(400)); nj.push((double)(20 + r.below(4) * 10)); nj.push((double)(20 + r.below(3) * 10)); nodes.push(nj); }
+        bool wide = r.chance(0.3);         // swarm member: some nodes are labels / containers several times the size of the others
+        for (int i = 0; i < n; i++) { Json nj = Json::arr(); nj.push((double)r.below(400)); nj.push((double)r.below(400));
+            bool w1 = wide && r.chance(0.3), h1 = wide && r.chance(0.15);
+            nj.push((double)(w1 ? 60 + r.below(15) * 10 : 20 + r.below(4) * 10)); nj.push((double)(h1 ? 60 + r.below(10) * 10 : 20 + r.below(3) * 10)); nodes.push(nj); }
         int style = (int)r.below(4);        // tree, cycle-ish, tree + extra edges, hub
         for (int i = 1; i < n; i++) { int j = style == 3 ? (r.chance(0.6) ? 0 : (int)r.below(i)) : (int)r.below(i); es.insert({j, i}); }
         int extra = style == 0 ? 0 : style == 1 ? 1 : (int)r.below(n / 2 + 1);
         for (int k = 0; k < extra; k++) { int a = (int)r.below(n), b = (int)r.below(n); if (a == b) continue; if (a > b) std::swap(a, b); es.insert({a, b}); }
     } else {
         n = r.range(2, tier == "thorough" ? 60 : 30);
-        for (int i = 0; i < n; i++) { Json nj = Json::arr(); nj.push((double)r.below(400)); nj.push((double)r.below(400)); nj.push(20.0); nj.push(20.0); nodes.push(nj); }
+        int sizes = what == "peel" ? (int)r.below(3) : 0;      // uniform; mildly varied; some nodes several times larger
+        for (int i = 0; i < n; i++) { Json nj = Json::arr(); nj.push((double)r.below(400)); nj.push((double)r.below(400));
+            double wd = 20, ht = 20;
+            if (sizes >= 1) { wd = 20 + r.below(4) * 10; ht = 20 + r.below(3) * 10; }
+            if (sizes == 2) { if (r.chance(0.3)) wd = 60 + r.below(15) * 10; if (r.chance(0.15)) ht = 60 + r.below(10) * 10; }
+            nj.push(wd); nj.push(ht); nodes.push(nj); }
         int style = (int)r.below(4);
         bool connected = what == "peel" || style != 3;
         for (int i = 1; i < n; i++) if (connected || r.chance(0.6)) es.insert({(int)r.below(i), i});
@@ -354,6 +399,7 @@ Json genGraphSession(Rng &r, const std::string &tier, const std::string &what) {
         if (r.chance(0.2)) o.set("preferConvexTrees", r.chance(0.5));
         if (r.chance(0.2)) o.set("defaultTreeGrowthDir", (long)r.below(4));
     }
+    if (what == "peel") { if (r.chance(0.6)) o.set("growth", (long)r.below(4)); if (r.chance(0.2)) o.set("convex", true); }
     ops.push(o);
     if (what != "hola" && r.chance(0.3)) { Json o2 = Json::obj(); o2.set("op", "components"); ops.push(o2); }
     s.set("ops", ops);
